@@ -1082,7 +1082,7 @@ impl Exec {
         let s = |k: &str| op.get(k).and_then(|x| x.as_str()).unwrap_or("");
         match e {
             "bw" => self.wtx.is_none() && self.db.is_some(),
-            "dur" | "2pc" | "qr" | "commit" | "abort" | "dropw" | "dropwp" | "rename" | "delete" | "spe" | "spp" | "spdel" | "splist" | "sprestp" => self.wtx.is_some(),
+            "dur" | "2pc" | "qr" | "commit" | "compactw" | "abort" | "dropw" | "dropwp" | "rename" | "delete" | "spe" | "spp" | "spdel" | "splist" | "sprestp" => self.wtx.is_some(),
             "spreste" => self.wtx.is_some() && self.sps.contains_key(s("s")) && self.wtables.is_empty(),
             "open" => self.wtx.is_some() && !self.wtables.contains_key(s("n")),
             "close" | "ins" | "insr" | "getmut" | "entry" | "rem" | "pop" | "retain" | "extract" | "mins" | "mrem" | "mremall" | "cursor" => {
@@ -1117,7 +1117,7 @@ impl Exec {
             if !self.applicable(op) {
                 return vec![json!({"e": "note", "what": "skipped", "step": op["e"]})];
             }
-            if matches!(op["e"].as_str(), Some("commit" | "abort" | "dropw" | "dropwp")) && !self.wtables.is_empty() {
+            if matches!(op["e"].as_str(), Some("commit" | "compactw" | "abort" | "dropw" | "dropwp")) && !self.wtables.is_empty() {
                 // handles that the recorded script closed through steps that were skipped
                 let names: Vec<String> = self.wtables.keys().cloned().collect();
                 let mut evs = vec![];
@@ -1689,6 +1689,74 @@ impl Exec {
                     Err(e) => er(e),
                 };
                 Self::with_r(op, r)
+            }
+            // compact() is called while this write transaction is live on another thread (a WriteTransaction is not
+            // lifetime-bound to the Database): it passes its first checks, waits for the write lock, and meanwhile the
+            // transaction creates a savepoint (sp = "p" | "e" | "none") and commits.  The events are returned in the order
+            // savepoint, commit, compact - compact()'s decision is taken after it got the lock, i.e. after the commit -
+            // so Kv!Compact demands the refusal that the state after the commit calls for (same answer if compact() was
+            // slow and saw the savepoint in its first checks already)
+            "compactw" => {
+                let t = self.take_txn();
+                let kind = op["sp"].as_str().unwrap().to_string();
+                let helper = std::thread::spawn(move || {
+                    std::thread::sleep(std::time::Duration::from_millis(120));
+                    let mut evs: Vec<J> = vec![];
+                    let mut kept = None;
+                    match kind.as_str() {
+                        "p" => evs.push(json!({"e": "spp", "r": match t.persistent_savepoint() { Ok(id) => ok(json!(id)), Err(e) => er(e) }})),
+                        "e" => {
+                            let r = match t.ephemeral_savepoint() {
+                                Ok(sp) => {
+                                    kept = Some(sp);
+                                    ok(json!(0))
+                                }
+                                Err(e) => er(e),
+                            };
+                            evs.push(json!({"e": "spe", "r": r}));
+                        }
+                        _ => {}
+                    }
+                    let r = match t.commit() {
+                        Ok(()) => ok(json!(0)),
+                        Err(e) => er(e),
+                    };
+                    evs.push(json!({"e": "cbegin"}));
+                    evs.push(json!({"e": "cend", "r": r}));
+                    (evs, kept)
+                });
+                let done = std::sync::Arc::new(std::sync::atomic::AtomicBool::new(false));
+                let watchdog = {
+                    let done = done.clone();
+                    std::thread::spawn(move || {
+                        let t0 = std::time::Instant::now();
+                        while !done.load(std::sync::atomic::Ordering::Acquire) {
+                            std::thread::sleep(std::time::Duration::from_millis(20));
+                            if t0.elapsed() > std::time::Duration::from_secs(40) && !done.load(std::sync::atomic::Ordering::Acquire) {
+                                eprintln!("WATCHDOG: compact() called while a write transaction was live has not returned after {:?}: it does not finish", t0.elapsed());
+                                std::process::abort();
+                            }
+                        }
+                    })
+                };
+                let r = match self.db.as_mut().unwrap().compact() {
+                    Ok(b) => ok(json!(b)),
+                    Err(e) => er(e),
+                };
+                done.store(true, std::sync::atomic::Ordering::Release);
+                let _ = watchdog.join();
+                let (mut evs, kept) = helper.join().expect("HARNESS: the committing thread of compactw panicked");
+                if let Some(sp) = kept {
+                    self.sps.insert(op["s"].as_str().unwrap().to_string(), sp);
+                }
+                for ev in &mut evs {
+                    if ev["e"] == "spe" {
+                        ev["s"] = op["s"].clone();
+                    }
+                }
+                // (no length rule here: the commit of the other thread may have grown the file meanwhile)
+                evs.push(json!({"e": "compact", "r": r, "how": "waited for a live write transaction"}));
+                evs
             }
             "compact" => {
                 assert!(self.wtx.is_none(), "HARNESS: script error: compact with a live write transaction");
